@@ -1109,6 +1109,21 @@ func (e *Engine) CopyCatalogToTx(ctx context.Context, tx *store.OngoingTx) error
 		return err
 	}
 
+	// views and sequences are part of the catalog as well
+	for _, catalogPrefix := range []string{catalogViewPrefix, catalogSequencePrefix} {
+		prefix := MapKey(e.prefix, catalogPrefix, EncodeID(DatabaseID))
+
+		err = iteratePrefix(ctx, tx, prefix, func(key, value []byte, deleted bool) error {
+			if deleted {
+				return nil
+			}
+			return tx.Set(key, nil, value)
+		})
+		if err != nil {
+			return err
+		}
+	}
+
 	return nil
 }
 
